@@ -38,7 +38,11 @@ def extract(prop):
     inc = os.path.join(lib, 'include')
     kind, text = _cached(lib, 'dispatch', x_dispatch, lambda: x_dispatch.generate(C.REPO, inc, C.WORK))
     if kind == 'ok':
-        C.write_if_changed(os.path.join(C.LEAN, 'YaclibModel/Extracted/Dispatch.lean'), text)
+        parts = text.split('\n' + x_dispatch.SPLIT)  # Dispatch.lean, then `<relative path>\n<text>` per further module
+        C.write_if_changed(os.path.join(C.LEAN, 'YaclibModel/Extracted/Dispatch.lean'), parts[0])
+        for extra in parts[1:]:
+            rel, _, body = extra.partition('\n')
+            C.write_if_changed(os.path.join(C.LEAN, rel.strip()), body)
     else:
         problems.append('translator x_dispatch failed (core.hpp no longer has the shape the model was written from): ' + text)
     if prop == 'C20':
@@ -62,6 +66,8 @@ def comb_check(res, tier):
     kinds = ['plain'] + (['plain_asan'] if tier != 'quick' else [])
     table = {}
     bad = []
+    zbad = []
+    zmsgs = []
     for kind in kinds:
         r = subprocess.run([pipe.harness(kind), '--comb'], capture_output=True, text=True)
         if r.returncode != 0:
@@ -83,6 +89,35 @@ def comb_check(res, tier):
                     bad.append('Wait/WaitFor/Get on %d futures allocated %d + %d blocks' % (n, a, b))
                 if r0 != '0' or r1 != '1':
                     bad.append('WaitFor on %d futures returned %s before / %s after completion' % (n, r0, r1))
+    # the "allocate nothing" half of the property: co_await of futures, Wait / WaitFor / WaitUntil, Get, Strand::Submit of an
+    # existing job — full matrix of harness/alloc.cpp (forms x handle types x n x readiness), 0 allocations in every cell
+    zero = {}
+    for kind in kinds:
+        r = subprocess.run([C.build_harness('alloc', kind, ['alloc.cpp'])], capture_output=True, text=True)
+        if r.returncode != 0:
+            raise C.BuildError('alloc exited %d: %s' % (r.returncode, (r.stderr or r.stdout)[-800:]))
+        cells = 0
+        for line in r.stdout.split('\n'):
+            m = re.match(r'zero (\w+) \| (.*) \| allocs=(-?\d+) ok=(\d)$', line)
+            if m:
+                cells += 1
+                sec, what, a, ok = m.group(1), m.group(2), int(m.group(3)), m.group(4)
+                zero[sec] = zero.get(sec, 0) + 1
+                if a != 0:
+                    zbad.append((sec, '%s: %d allocation(s)' % (what, a), line))
+                elif ok != '1':
+                    zbad.append((sec, '%s: the operation did not do what it must (measurement void)' % what, line))
+        m = re.search(r'^cells (\d+)$', r.stdout, re.M)
+        if not m or int(m.group(1)) != cells or cells < 800:
+            raise C.BuildError('alloc printed %d cells (expected >= 800, trailer %s)' % (cells, m.group(1) if m else 'missing'))
+    res.coverage['zero_allocation_cells'] = zero
+    seen_sec = {}
+    for sec, msg, line in zbad:
+        seen_sec.setdefault(sec, []).append((msg, line))
+    for sec, items in seen_sec.items():
+        msg = items[0][0] + ('' if len(items) == 1 else '  (+ %d more cells of section `%s`)' % (len(items) - 1, sec))
+        res.violation('alloc %s\n' % sec + '\n'.join('# ' + l for _, l in items[:40]), msg, name='C20_%s_zero_%s.txt' % (tier, sec))
+        zmsgs.append(msg)
     for name, row in table.items():
         vals = {v for n, v in row.items() if n >= 2}
         if len(vals) > 1:
@@ -92,7 +127,7 @@ def comb_check(res, tier):
     res.coverage['combinator_allocations'] = {k: sorted(v.items()) for k, v in table.items()}
     for b in bad[:3]:
         res.violation('pipe --comb\n# ' + b, b, name='C20_%s_comb.txt' % tier)
-    return bad
+    return bad + zmsgs
 
 
 # C12, clause "a completed Task that is destroyed does nothing more" (~Task: `Valid() && !Ready()`, /repo 2690a63, D13): the pipe
